@@ -27,7 +27,7 @@ def prepare(repo):
 
 
 def gen_case(rng, params, index):
-    kind = rng.weighted([(3, "cascade"), (3, "observers"), (2, "names"), (3, "literals"), (2, "operators"), (3, "general")])
+    kind = rng.weighted([(3, "cascade"), (3, "observers"), (2, "names"), (3, "literals"), (2, "operators"), (3, "facilities"), (3, "general")])
     tn = rng.choice(qtcheck.TYPE_NAMES)
     r2 = rng.fork("doc")
     if kind == "general":
@@ -35,7 +35,7 @@ def gen_case(rng, params, index):
         c["c16_kind"] = kind
         return c
     doc = {"cascade": gen.doc_cascade, "observers": gen.doc_observers, "names": gen.doc_names, "literals": gen.doc_literals,
-           "operators": gen.doc_operators}[kind](r2, tn)
+           "operators": gen.doc_operators, "facilities": gen.doc_facilities}[kind](r2, tn)
     hists = []
     errs = []
     for k in range(params["histories"]):
